@@ -8,6 +8,8 @@ mod isolate;
 mod c01;
 mod c02;
 mod c03;
+mod c05;
+mod c06;
 mod c07;
 mod c08;
 mod c14;
@@ -41,6 +43,8 @@ fn main() {
         "c14-drive" => c14::drive(rest),
         "c14-replay" => c14::replay(),
         "c15-replay" => c15::replay(rest),
+        "c05-drive" => c05::drive(rest),
+        "c06-drive" => c06::drive(rest),
         "c07-replay" => c07::replay(),
         "c08-replay" => c08::replay(),
         _ => {
